@@ -136,6 +136,7 @@ mut('twin-c13-fsign-where', 'C13', 'advection.py', "    return (np.abs(phi_in) >
 mut('twin-c17-fsign-where', 'C17', 'advection.py', "    return (np.abs(phi_in) >= eps1)*phi_in+eps1*(phi_in == 0.0)+eps1*(np.abs(phi_in) < eps1)*np.sign(phi_in)",
     "    small = np.abs(phi_in) < eps1\n    return np.where(small, np.where(phi_in == 0.0, eps1, eps1*np.sign(phi_in)), phi_in)", None)
 M.append(dict(id='c15-memo-cache', prop='C15', patch=os.path.join(VERIF, 'selftest', 'mutants', 'c15-memo-cache.diff'), expect='module.diffusion'))
+M.append(dict(id='c06-size-threshold', prop='C06', patch=os.path.join(VERIF, 'selftest', 'mutants', 'c06-size-threshold.diff'), expect='diffusionTerm1D'))
 M.append(dict(id='c09-tracked-setter-or', prop='C09', patch=os.path.join(VERIF, 'selftest', 'mutants', 'c09-tracked-setter-or.diff'), expect='TrackedArray.modified.setter'))
 
 
